@@ -31,14 +31,29 @@ def step (cfg : Cfg) (_ : Unit) (line : String) : Unit × String :=
     match algOf a with
     | some _ => ((), "ok")
     | none => ((), "bad-op")
-  | ["dec", a, orig, _, v] =>
+  | "rtb" :: a :: _ =>
+    -- same assumption, for several values compressed before any is decompressed
+    match algOf a with
+    | some _ => ((), "ok")
+    | none => ((), "bad-op")
+  | ["dec", a, orig, dmg, v] =>
     match algOf a with
     | none => ((), "bad-op")
     | some alg =>
       if v.startsWith "O:" then
         let d := (v.drop 2).toString
         -- wrapper model on a successful library result: `liftRes _ (.ok d) = .ok d`
-        let fl := if d != orig then s!"\t#F:C24-{a}-lib-undetected-corruption" else ""
+        -- the finding id encodes the input class, so that only the recorded classes are "known":
+        --   snappy: raw blocks have no checksum at all;
+        --   lz4: frame cut at or before the first block-size field (≤ 11 bytes) reads as a clean EOF;
+        --   zstd: an empty input is accepted as an empty stream
+        let dl := dmg.length / 2
+        let cls :=
+          if a == "snappy" then "C24-snappy-no-checksum"
+          else if a == "lz4" && d == "" && dl ≤ 11 then "C24-lz4-truncated-frame-header"
+          else if a == "zstd" && d == "" && dl == 0 then "C24-zstd-empty-input"
+          else s!"C24-{a}-lib-undetected-corruption"
+        let fl := if d != orig then s!"\t#F:{cls}" else ""
         ((), s!"ok {d}{fl}")
       else
         match libOf v with
